@@ -15,6 +15,25 @@ def arithF : Arith Float :=
     lt := fun a b => a < b, le := fun a b => a ≤ b, beq := fun a b => a == b,
     equal := GenF.Equal, min := goMin, sqrt := Float.sqrt, isInf := Float.isInf }
 
+def decodeF (x : Float) : Nat × Int :=
+  let b := x.toBits.toNat % 2 ^ 63
+  let ex : Nat := b / 2 ^ 52
+  let fr : Nat := b % 2 ^ 52
+  if ex == 0 then (fr, -1074) else (fr + 2 ^ 52, Int.ofNat ex - 1075)
+
+/-- math.Mod, exact (the remainder of two doubles is a double; sign of x) -/
+def fmodF (x y : Float) : Float :=
+  if y == 0 || x.isInf || x.isNaN || y.isNaN then (0.0 / 0.0)
+  else if y.isInf then x
+  else
+    let (mx, ex) := decodeF x
+    let (my, ey) := decodeF y
+    let e := min ex ey
+    let X := mx * 2 ^ (ex - e).toNat
+    let Y := my * 2 ^ (ey - e).toNat
+    let r := (Float.ofNat (X % Y)).scaleB e
+    if x.toBits >>> 63 == 1 then -r else r
+
 def psub (p q : Pt Float) : Pt Float := ⟨p.x - q.x, p.y - q.y⟩
 
 /-- path.go:400-425 -/
@@ -54,7 +73,7 @@ def opsF : Ops Float :=
     reflectYAbout := GenF.Matrix.ReflectYAbout,
     sincos := fun x => (Float.sin x, Float.cos x),
     lineExtends := lineExtendsF, closeExtends := closeExtendsF, arcFix := arcFixF,
-    checkDash := checkDashImpl arithF }
+    checkDash := checkDashImpl arithF fmodF }
 
 /-! ## line parser -/
 
